@@ -1,4 +1,5 @@
 import CDVProofs.FullRT
+import CDVProofs.FullRT2
 /-! # C01 — `CodeData.from_code(c).to_code()` is `c`, at every nesting depth -/
 namespace CDV.Props.C01
 open CDV
@@ -26,6 +27,19 @@ theorem C01_from_code_to_code (v : Ver) (T : OpTable) (F : FlagTable)
     (c : RawCode) (d : CodeData) (hok : AllOK v T 64 c) (h : toCodeData v T F c = .ok d) :
     ∃ c', fromCodeData v F d = .ok c' ∧ SameButLT 64 c c' :=
   full_roundtrip v T F hA 64 c d hok h
+
+/-- **… and CPython reads the result exactly as the original, at every nesting level.**  Same hypotheses (plus: the
+    opcode table classifies only `EXTENDED_ARG` as a prefix): the code object `to_code()` returns is related to the
+    original by `SameAsRead` — every attribute equal except the line-table bytes, *and* `Spec.read` (instructions, resolved
+    operands, the line of every instruction) equal, for the code object and every code object nested in it.  The
+    "operands fit their widths" premise of the C03 theorems is derived for decoded data (`decoded_fits`: the width loop
+    ends with the original operands, each of which fits the width it was read in). -/
+theorem C01_full_roundtrip_reading (v : Ver) (T : OpTable) (F : FlagTable)
+    (hA : F.annotations ∉ [bOPTIMIZED, bNEWLOCALS, bVARARGS, bVARKEYWORDS, bNESTED, bGENERATOR, bNOFREE, bCOROUTINE, bASYNC_GENERATOR])
+    (hT : ∀ op, T.get op = .ext → op = EXTENDED_ARG)
+    (n : Nat) (c : RawCode) (d : CodeData) (hok : AllOK v T n c) (h : toCodeDataFuel v T F n c = .ok d) :
+    ∃ c', fromCodeDataFuel v F n d = .ok c' ∧ SameAsRead v T n c c' :=
+  full_roundtrip_reading v T F hA hT n c d hok h
 
 /-- every decoded jump designates a block that exists (used above; also the premise of `C01_decoded_data_encodes`) -/
 theorem C13_decoded_jumps_valid (v : Ver) (T : OpTable) (F : FlagTable) (dec : RawCode → R CodeData)
